@@ -99,7 +99,8 @@ def nonzero(ix, amount, fs):
     return False
 
 
-def nonzero_instances(ctx, em, rule, text, floor, chain_filter, consequence):
+def nonzero_instances(ctx, em, rule, text, floor, chain_filter, consequence, select=None):
+    """select(amount value) -> bool: only emissions whose amount satisfies it are obligations (default: all)"""
     ix = ctx.ix
     ctx.rule(rule, text, floor)
     movers = movers_of(ctx)
@@ -121,6 +122,8 @@ def nonzero_instances(ctx, em, rule, text, floor, chain_filter, consequence):
                 args2 = tuple(sym.subst(a, m) for a in e.args) if m else tuple(e.args)
                 if e.target.key in movers:
                     amt = args2[movers[e.target.key]]
+                    if select is not None and not select(amt):
+                        continue
                     out.append((chain + (short_fn(e.target).split("::")[-1],), amt, nonzero(ix, amt, fs), None))
                 elif depth > 0 and model.constructs_submsg(ix, e.target):
                     emitters(e.target, ix.param_map(e.target, args2), fs, chain + (short_fn(e.target).split("::")[-1],), depth - 1, out)
